@@ -2,7 +2,7 @@
 import re
 from engine import core
 from engine.core import AnalysisBroken, P, T, callee_of, callee_short, cond_atoms, loc_of, strip, subexprs
-from engine.kinds import FactFlow, precedes_on_all_paths
+from engine.kinds import FactFlow, derives_from, precedes_on_all_paths
 from .common import facts, lib
 
 EXPLANATION = (
@@ -234,7 +234,7 @@ def run(rep, tier):
         ff7 = FactFlow(fn, eh=False)
         uses = []
         for b, i, e in fn.all_events():
-            if e.get("k") == "write" and re.match(r"^this->m_sp(\[|$)", P(e["lhs"])) and "m_stack" in T(e.get("rhs")):
+            if e.get("k") == "write" and re.match(r"^this->m_sp(\[|$)", P(e["lhs"])) and derives_from(fn, e.get("rhs"), lambda t: "m_stack" in t):
                 uses.append((b, i, e, "computes the frame address from m_stack"))
             elif e.get("k") == "call" and callee_short(e) == "reset_stack" and e.get("args") and "m_stack" in T(e["args"][0]):
                 uses.append((b, i, e, "hands m_stack to posix::reset_stack (which reads the watermark through it)"))
